@@ -171,7 +171,6 @@ def votes_cleared(cx):
 def advance_shape(cx):
     f = cx.fn("ReadOnly::advance")
     pops = [c for c in cx.prog.all_calls if c.fn is f and c.data["callee"].endswith("VecDeque::pop_front")]
-    cx.check(len(pops) == 1, "pop", "advance pops the queue at one site")
     a_ = cx.prog.A(f)
     SOME_ = "core::option::Option::Some"
 
@@ -210,6 +209,30 @@ def advance_shape(cx):
 
     def ctx_slot(e):
         return position_call(e) or searched_slot(e)
+    drains = [c for c in cx.prog.all_calls if c.fn is f and c.data["callee"].endswith("VecDeque::drain")]
+    if not pops and len(drains) == 1:
+        # second form: `queue.drain(..=position).map(|ctx| pending.remove(&ctx).unwrap()).collect()`
+        c = drains[0]
+        def found(l):
+            return l[0] == "in" and l[2] == frozenset(["Some"]) and ctx_slot(l[1])
+        require(cx, c, cx.site_key(c, "found"), "requests are released only if the acknowledged context is in the queue", found, kill=False)
+        pos = [l[1] for l in cx.guard_lits(c) if found(l)]
+        cx.check(bool(pos), "position", "the position of the context in the queue is looked up (iter().position(..) or an enumerate loop that stops at the match)")
+        a = call_args(cx, c)
+        okq = any(is_f(x, "ReadOnly.read_index_queue") for x in walk(a[0]))
+        rg = a[1]
+        okr = bool(pos) and rg[0] == "adt" and rg[1].endswith("RangeToInclusive::RangeToInclusive") and dict(rg[2]).get("end") == ("vfield", pos[0], SOME_, 0)
+        cx.check(okq and okr, "range", "exactly the requests up to and including the acknowledged one are released (drain(..=position) of the queue)")
+        okm = False
+        for m_ in [x for x in cx.prog.all_calls if x.fn is f and x.data["callee"].endswith("Iterator::map")]:
+            ma = call_args(cx, m_)
+            if len(ma) == 2 and ma[1][0] == "closure":
+                rr = closure_returns(cx.prog, ma[1][1]) or []
+                okm = okm or (len(rr) == 1 and any(x[0] == "call" and x[1].endswith("HashMap::remove") and any(y[0] == "param" for y in walk(x[2][1])) for x in walk(rr[0][1])))
+        cx.check(okm, "remove", "each released request is removed from the pending map by the drained context")
+        cx.ok("pop", "the queue is drained up to the position found")
+        return
+    cx.check(len(pops) == 1, "pop", "advance pops the queue at one site")
     pos = None
     for c in pops:
         def found(l):
